@@ -71,3 +71,6 @@ from pyvc.harness import reuse as _reuse
 from contracts import C08 as _C08x
 _reuse("C08/encrypt.frame", "C15/auth-block-frame.stores-BE2(crc)")
 _reuse("C08/decrypt.inverse", "C15/auth-block-frame.crc-verified-on-unwrap")
+# ... and on the way back the stored 16 bits are compared with the CRC of the payload for EVERY stored value (0000 and
+# FFFF included): a frame is accepted only if they are equal (C08/decrypt.rejects, clause post.accept=>crc)
+_reuse("C08/decrypt.rejects", "C15/auth-block-frame.accepted=>stored-checksum=crc(payload)")
